@@ -198,15 +198,20 @@ impl Label {
     ///
     /// The first label is assumed to start at index `start`.
     ///
-    /// Stops at the root label, the first broken label, or if a compression
-    /// pointer is found that is pointing forward.
+    /// Stops at the root label, the first broken label, if a compression
+    /// pointer is found that is not pointing backward, or once the labels
+    /// seen exceed the maximum length of a domain name.
     ///
     /// # Panics
     ///
     /// Panics if `start` is beyond the end of `slice`.
     #[must_use]
     pub fn iter_slice(slice: &[u8], start: usize) -> SliceLabelsIter<'_> {
-        SliceLabelsIter { slice, start }
+        SliceLabelsIter {
+            slice,
+            start,
+            len: 0,
+        }
     }
 
     /// Returns a reference to the underlying octets slice.
@@ -738,6 +743,12 @@ pub struct SliceLabelsIter<'a> {
     ///
     /// As a life hack, we use `usize::MAX` to fuse the iterator.
     start: usize,
+
+    /// The number of octets of the labels returned so far.
+    ///
+    /// A name is at most 255 octets long. Chains of compression pointers
+    /// can form a cycle, so we stop once this limit is exceeded.
+    len: usize,
 }
 
 impl<'a> Iterator for SliceLabelsIter<'a> {
@@ -751,6 +762,12 @@ impl<'a> Iterator for SliceLabelsIter<'a> {
         loop {
             match Label::split_from(&self.slice[self.start..]) {
                 Ok((label, _)) => {
+                    self.len += label.len() + 1;
+                    if self.len > 255 {
+                        // Longer than any name: a pointer cycle.
+                        self.start = usize::MAX;
+                        return None;
+                    }
                     if label.is_root() {
                         self.start = usize::MAX;
                     } else {
@@ -760,7 +777,7 @@ impl<'a> Iterator for SliceLabelsIter<'a> {
                 }
                 Err(SplitLabelError::Pointer(pos)) => {
                     let pos = pos as usize;
-                    if pos > self.start {
+                    if pos >= self.start {
                         // Incidentally, this also covers the case where
                         // pos points past the end of the message.
                         self.start = usize::MAX;
